@@ -21,9 +21,11 @@ def run(chk, F):
     chk.guard("writes-after-sort", "load_defs", lambda: L.registry_writes_after_sort(chk, F))
     chk.guard("walk-coverage", "Resolver", lambda: L.walk_coverage(chk, F))
     chk.guard("errors-reported", "load_defs", lambda: L.errors_reported(chk, F))
+    chk.guard("errors-reported", "load_defs inserts", lambda: L.input_inserts_checked(chk, F))
     import c07
     chk.guard("fallback-order", "Resolver::lookup", lambda: c07.family(chk, F, "Resolver::lookup", "loader::load::Resolver::lookup_exact", "loader::load::Resolver::lookup_with_prefix", "loader::load::Resolver::lookup", {}))
     chk.guard("definitions-not-overwritten", "load_defs", lambda: L.definitions_precedence(chk, F))
+    chk.guard("exponent-is-exact", "loader evaluators", lambda: L.exact_exponents(chk, F))
     chk.guard("unique-names", "data", lambda: datafiles.unique_names(chk))
     chk.guard("categories-declared-consistently", "data", lambda: datafiles.categories_declared_once(chk))
     chk.guard("references-resolve", "data", lambda: datafiles.reference_lint(chk))
